@@ -99,11 +99,14 @@ FCM == {"function", "class", "module"}
 \* a PROPERTY's docstring is handled apart (astbuilder._handlePropertyDef): a "return" field of a docstring that has no
 \* description BECOMES the description; with a description it is an ordinary field
 FCMP == FCM \cup {"property"}
+\* an ATTRIBUTE's own docstring (the string below the assignment): its "type" field (no argument) gives the type that is
+\* shown in the attribute's header, before the docstring itself is rendered
+FCMPA == FCMP \cup {"attribute"}
 KindTable ==
   ( "param"      :> KR("param",   {"pa", "pb"},        {"function", "class"}, "") @@
     "arg"        :> KR("param",   {"pb"},              {"function", "class"}, "") @@
     "keyword"    :> KR("param",   {"kx"},              {"function", "class"}, "") @@
-    "type"       :> KR("param",   {"pa"},              {"function"},          "type") @@
+    "type"       :> KR("param",   {"pa", ""},          {"function", "attribute"}, "type") @@
     "return"     :> KR("return",  {""},                {"function", "property"}, "return") @@
     "returns"    :> KR("return",  {""},                {"function", "property"}, "return") @@
     "rtype"      :> KR("return",  {""},                {"function"},          "rtype") @@
@@ -117,12 +120,12 @@ KindTable ==
     "except"     :> KR("raise",   {"OSError"},         {"function", "class"}, "") @@
     "warn"       :> KR("warn",    {"", "UserWarning"}, {"function", "class"}, "") @@
     "warns"      :> KR("warn",    {"UserWarning"},     {"function", "class"}, "") @@
-    "see"        :> KR("see",     {""},                FCMP,                   "") @@
-    "seealso"    :> KR("see",     {""},                FCMP,                   "") @@
-    "note"       :> KR("note",    {""},                FCMP,                   "") @@
-    "author"     :> KR("author",  {""},                FCMP,                   "") @@
-    "since"      :> KR("since",   {""},                FCMP,                   "") @@
-    "custom"     :> KR("unknown", {"", "ca"},          FCMP,                   "") @@
+    "see"        :> KR("see",     {""},                FCMPA,                   "") @@
+    "seealso"    :> KR("see",     {""},                FCMPA,                   "") @@
+    "note"       :> KR("note",    {""},                FCMPA,                   "") @@
+    "author"     :> KR("author",  {""},                FCMPA,                   "") @@
+    "since"      :> KR("since",   {""},                FCMPA,                   "") @@
+    "custom"     :> KR("unknown", {"", "ca"},          FCMPA,                   "") @@
     "ivar"       :> KR("attr",    {"xa"},              {"class", "function"}, "") @@
     "cvar"       :> KR("attr",    {"xb"},              {"class", "function"}, "") @@
     "var"        :> KR("attr",    {"xc"},              {"module", "class", "function"}, "") )
@@ -157,7 +160,7 @@ VARIABLES doc,      \* the document built so far
 vars == <<doc, lists, sect, nf, nact, nw, last, hosts, once>>
 
 Init == /\ doc = <<>> /\ lists = <<>> /\ sect = 0 /\ nf = 0 /\ nact = 0 /\ nw = 0
-        /\ last = "none" /\ hosts = FCMP /\ once = {}
+        /\ last = "none" /\ hosts = FCMPA /\ once = {}
 
 Depth == Len(lists)
 Pop(k) == SubSeq(lists, 1, Depth - k)
@@ -230,13 +233,22 @@ OpenSection(level) ==
 
 \* ---- AddField(kind, arg, host, style, form): fields come last, each starts with a paragraph (a type is one word)
 HostChoice(kind) == LET hs == hosts \cap KindTable[kind].hosts
-                    IN IF kind \in VarLike \cup {"return", "returns"} THEN {{x} : x \in hs}
+                    IN IF kind \in VarLike \cup {"return", "returns", "type"} THEN {{x} : x \in hs}
                        ELSE IF hs = {} THEN {} ELSE {hs}
-AddField(kind, arg, h, st, form) ==
+\* inl: the variable that an ivar / cvar / var field of a class / module docstring documents ALSO has a docstring of its own
+\* below its assignment (one fresh word, iw); pydoctor presents the field's text, so that docstring must be reported
+InlineChoice(kind, arg, h) ==
+    {FALSE} \cup (IF kind \in VarLike /\ h \subseteq {"class", "module"}
+                      /\ ~\E i \in 1..Len(doc) : doc[i].t = "field" /\ doc[i].kind = kind /\ doc[i].arg = arg
+                   THEN {TRUE} ELSE {})
+AddField(kind, arg, h, st, form, inl) ==
     /\ nf < MaxFields
     /\ KindTable[kind].once \notin once
-    /\ Step(StyleWords[st])
+    /\ (kind = "type" => ((arg = "") <=> (h = {"attribute"})))      \* "@type: T" in an attribute's own docstring
+    /\ (form \in {"cbullet", "cdef"} => arg # "")                    \* an entry of a consolidated field names something
+    /\ Step(StyleWords[st] + (IF inl THEN 1 ELSE 0))
     /\ doc' = doc \o << [t |-> "field", reg |-> nf + 1, lv |-> 0, kind |-> kind, arg |-> arg, form |-> form,
+                         iw |-> IF inl THEN nw + StyleWords[st] + 1 ELSE 0,
                          ctag |-> IF form = "plain" THEN "" ELSE IF form = "nsee" THEN "See Also" ELSE ConsTag[kind]],
                         [Para(0, st) EXCEPT !.reg = nf + 1] >>
     /\ nf' = nf + 1 /\ lists' = <<>> /\ last' = (IF form = "nsee" THEN "sealed" ELSE "para") /\ hosts' = h
@@ -252,12 +264,12 @@ Next == \/ \E up \in 0..Depth, st \in StyleChoice : AddPara(up, st) \/ AddItem(u
         \/ \E kind \in Kinds : \E arg \in KindTable[kind].args : \E h \in HostChoice(kind) :
                \E form \in FormsOf(kind) \cap Forms :
                  \E st \in (IF form = "nsee" THEN SeeStyles ELSE IF kind \in TypeLike THEN {"word"} ELSE StyleChoice) :
-                   AddField(kind, arg, h, st, form)
+                   \E inl \in InlineChoice(kind, arg, h) : AddField(kind, arg, h, st, form, inl)
 Spec == Init /\ [][Next]_vars
 
 \* ================================================================== the oracle (property C09)
 Host == IF "function" \in hosts THEN "function" ELSE IF "class" \in hosts THEN "class"
-        ELSE IF "module" \in hosts THEN "module" ELSE "property"
+        ELSE IF "module" \in hosts THEN "module" ELSE IF "property" \in hosts THEN "property" ELSE "attribute"
 IsVerb(n) == n.t \in {"lit", "doctest", "code"}
 NodeWords(n) == IF n.t \in {"para", "head"} THEN n.w
                 ELSE IF IsVerb(n) THEN [i \in 1..Markers(Templates[n.t][n.var]) |-> n.m]
@@ -278,7 +290,10 @@ Fields(d) == [k \in 1..Len(FieldNodes(d)) |->
                  \* attribute that the field documents
                  where |-> IF f.kind \in VarLike /\ Host \in {"class", "module"} THEN "attribute"
                            ELSE IF Host = "property" /\ f.kind = "return" /\ Text(d) = <<>> THEN "description"
+                           ELSE IF Host = "attribute" /\ f.kind = "type" THEN "typeline"
                            ELSE "row",
+                 \* word of the documented variable's own docstring (0 = it has none): shown with the variable or reported
+                 inline |-> f.iw,
                  words |-> RegionWords(d, k), verb |-> RegionVerb(d, k)]]
 
 \* sanity of the generator itself (design level): every word 1..nw is expected exactly once somewhere,
@@ -287,7 +302,8 @@ RECURSIVE NonDecreasing(_)
 NonDecreasing(s) == Len(s) < 2 \/ (s[1] <= s[2] /\ NonDecreasing(Tail(s)))
 AllWords == Flat([r \in 1..(nf + 1) |-> RegionWords(doc, r - 1)])
 OracleSane == /\ NonDecreasing(AllWords)
-              /\ {AllWords[i] : i \in 1..Len(AllWords)} = 1..nw
+              /\ ({AllWords[i] : i \in 1..Len(AllWords)}
+                     \cup ({doc[i].iw : i \in {j \in 1..Len(doc) : doc[j].t = "field"}} \ {0})) = 1..nw
               /\ Len(Fields(doc)) = nf
 
 \* ------------------------------------------------------------------ emission (spec -> code)
